@@ -7,7 +7,7 @@ from checks import c03_robust as c
 
 secs = int(sys.argv[1])
 seed = int(sys.argv[2]) if len(sys.argv) > 2 else 1
-arts, stats = fuzzrun.campaign(seed, secs, workers_per_target=2, asl_workers=4)
+arts, stats = fuzzrun.campaign(seed, secs, workers_per_target=2, asl_workers=4, keep="/tmp/longfuzz/corpus")
 print(stats, len(arts), "artifacts", flush=True)
 os.makedirs("/tmp/longfuzz", exist_ok=True)
 g = collections.defaultdict(list)
